@@ -74,7 +74,7 @@ def execute(c):
         if m.shape != (4, 4):
             raise ValueError("builder returned shape %s" % (m.shape,))
         return {"m": [[int(round(float(v) * 1e6)) for v in row] for row in m]}
-    use_cls = c["cid"] % 4 == 3 and len(c["trees"]) == 1
+    use_cls = lib.vid(c) % 4 == 3 and len(c["trees"]) == 1
     f = mk_op(o, wind, use_cls)
     g = mk_op(c["oi"], -wind, False) if c["kind"] == "inverse" else None
     res, kept = [], 1
